@@ -371,6 +371,7 @@ theorem safe_aCall (n : Nat) : ∀ f, UOk (aCall Fix.all f) n
         have hk' : k < (aStop Fix.all (aCall Fix.all f) g k).1.length := by rw [ST.1.len]; exact hk
         exact nou_append (nou_stop _ hg n ih g k hk hc) (nou_start _ hg n ih _ k hk' (ctxt_pres ST.1 hc))
       | run e => exact nou_run _ hg n ih g k e hk hc
+      | defn i => intro ev he; cases he
 
 theorem aOp_len (g : Arena) (op : AOp) : (aOp g op).1.length = g.length := by
   cases op with
